@@ -34,6 +34,14 @@ CHECKS = {
   "Held = no crash or disturbance in the sessions run.",
   "the worker process stands for the server process; RLIMIT_AS 4 GiB; Ufs runs as uid 0 on a scratch tree",
   "DESIGN.md §5 C06"),
+ "C07": ("srvlab", "exploration",
+  "directed schedule exploration through hook points (park one goroutine at a point until the other passed its point) with an offline oracle over wire order, invocation log and fid probes",
+  "For each target type and flush support of the implementation, a Tflush meets its target at every stage of its life: every pairwise ordering of 14 target points x 15 flusher points in both "
+  "directions (infeasible orderings time out and are counted, not judged), same-segment arrival under random delays, already answered, unknown tag, several flushes, flush of a flush; the reply "
+  "pool is pre-warmed with replies of the target's success type. Judged: one Rflush per Tflush, reply-before-Rflush, no invocation after an Rflush without reply, fid table unchanged by a "
+  "cancelled request. Held on the feasible orderings observed (count and interleaving ids in evidence).",
+  "orderings reachable at the ~25 hook points only; a scripted FlushOp cancels only requests it is working on; budgets are wall-clock but never a verdict (infeasible != violation)",
+  "DESIGN.md §5 C07"),
  "C04": ("srvlab", "exploration",
   "online reference-model monitor: every request/reply of sequential histories judged against an executable fid-table model, plus invocation/FidDestroy log of a scripted implementation",
   "The real server framework runs in-process with a scripted implementation over scripted in-memory connections; each step of (a) all (fid state x request x outcome) transitions on fresh "
